@@ -246,6 +246,7 @@ class Merge(Expr):
             s_method in ("disk", "tasks", "p2p")
             and self.how in ("inner", "left", "right", "leftsemi")
             and self.how != broadcast_side
+            and not (self.how == "leftsemi" and broadcast_side == "left")
             and broadcast is not False
         ):
             n_low = min(self.left.npartitions, self.right.npartitions)
